@@ -179,6 +179,12 @@ def check(prop, tier, replay=None):
             waived.update(keys["waive"])
             required.update(keys.get("require", {}))
             print(f"NOTE property={prop} {extra_key}: deciding at the API boundary only ({len(keys['waive'])} quota(s) waived, {len(keys.get('require', {}))} required instead)")
+    # monitors on internal helpers: when the tree no longer routes the work through such a helper (it is gone, or simply not
+    # called any more) its quotas say nothing about the property; they are waived and the API-boundary monitors decide alone
+    for name, tied in getattr(mod, "INTERNAL_MONITORS", {}).items():
+        if m["counters"].get(f"{name}|calls", 0) == 0 or m["extra"].get(f"monitor-unavailable:{name}", 0) > 0:
+            waived.update([f"{name}|held"] + list(tied))
+            print(f"NOTE property={prop} internal helper behind monitor {name} is not on the path of this tree: its quotas are waived")
     if not replay:
         quotas = dict(getattr(mod, "QUOTAS", {}).get(tier, {}))
         quotas.update(required)
